@@ -94,8 +94,9 @@ def entry_sig(e):
     return (e.path, e.checksum(), e.language, e.loc, [(m.unit_name, m.start.line, m.start.column, m.end.line, m.end.column, m.value) for m in e.measurements()])
 
 
-def make_cache_text(cached, same_version, pretty=True):
-    """What a previous scan (real writer) left behind: entries {p -> A(p, c')}."""
+def make_cache_text(cached, same_version, pretty=True, alter=0):
+    """What a previous scan (real writer) left behind: entries {p -> A(p, c')}. alter: 1 = the first entry lost its functions ("measurements": []), 2 = ("measurements": {}),
+    3 = its loc was changed - an entry whose line total no longer equals the sum of its function lengths is not what any scan wrote."""
     cb = Codebase("/w")
     for p, c in cached.items():
         cb.add_file(A(p, c))
@@ -108,7 +109,18 @@ def make_cache_text(cached, same_version, pretty=True):
         rmod.uuid4, rmod.datetime = saved
     if not same_version:
         r.version = "0.0.0-other"
-    return ReportWriter(r).to_json()
+    text = ReportWriter(r, pretty).to_json()
+    if alter and cached:
+        d = json.loads(text)
+        k = sorted(d["codebase"]["files"])[0]
+        if alter == 1:
+            d["codebase"]["files"][k]["measurements"] = []
+        elif alter == 2:
+            d["codebase"]["files"][k]["measurements"] = {}
+        else:
+            d["codebase"]["files"][k]["loc"] += 1
+        text = json.dumps(d, indent=2)
+    return text
 
 
 def run_step(tree, cache_text, cache_dir_exists=True, marker_files=True):
@@ -227,10 +239,13 @@ def _sel(x, lo, hi):
 
 
 @untraced
-def _step(tvals, cvals, has_cache, same_version):
+def _step(tvals, cvals, has_cache, same_version, alter=0):
     tree = {p: c for p, c in zip(POOL, tvals) if c >= 0}
     cached = {p: c for p, c in zip(POOL, cvals) if c >= 0} if has_cache else None
-    text = make_cache_text(cached, same_version) if has_cache else None
+    text = make_cache_text(cached, same_version, True, alter) if has_cache else None
+    if alter and has_cache and cached:
+        # an altered (inconsistent) cache is not a cache a scan wrote: nothing of it may be trusted, everything is analysed again
+        same_version = False
     out = run_step(tree, text, cache_dir_exists=has_cache)
     bad = check_step(tree, cached, same_version, out)
     if not bad:
@@ -245,6 +260,18 @@ def h_step(t0: int, t1: int, t2: int, e0: int, e1: int, e2: int, has_cache: bool
     pre: all(-1 <= x < NCONT for x in [t0, t1, t2, e0, e1, e2]) and (FIX_T0 is None or t0 == FIX_T0)
     post: _
     """
+    return _h_step(t0, t1, t2, e0, e1, e2, has_cache, same_version, 0)
+
+
+def h_step_altered(t0: int, t1: int, e0: int, e1: int, alter: int) -> bool:
+    """
+    pre: all(-1 <= x < NCONT for x in [t0, t1, e0, e1]) and 1 <= alter <= 3
+    post: _
+    """
+    return _h_step(t0, t1, -1, e0, e1, -1, True, True, _sel(alter, 1, 3))
+
+
+def _h_step(t0, t1, t2, e0, e1, e2, has_cache, same_version, alter):
     n = len(POOL)
     tv = [_sel(x, -1, NCONT - 1) for x in [t0, t1, t2][:n]]
     cv = [_sel(x, -1, NCONT - 1) for x in [e0, e1, e2][:n]]
@@ -253,8 +280,15 @@ def h_step(t0: int, t1: int, t2: int, e0: int, e1: int, e2: int, has_cache: bool
             return fin(True, False)
     hc = True if has_cache else False
     sv = True if same_version else False
-    bad = _step(tv, cv, hc, sv)
+    bad = _step(tv, cv, hc, sv, alter)
     return fin(bad == [], hc and sv and tv[0] >= 0 and cv[0] == tv[0])
+
+
+def real_h_step_altered(t0, t1, e0, e1, alter):
+    n = len(POOL)
+    tv, cv = [t0, t1, -1][:n], [e0, e1, -1][:n]
+    bad = _step.__wrapped__(tv, cv, True, True, alter)
+    return {"reproduced": bool(bad), "sig": "cache-step:altered-entry:" + "+".join(sorted(set(bad))), "detail": f"tree {dict(zip(POOL, tv))} cache {dict(zip(POOL, cv))} with its first entry altered (variant {alter}): {bad}"}
 
 
 def real_h_step(t0, t1, t2, e0, e1, e2, has_cache, same_version):
@@ -308,7 +342,8 @@ def h_read_report(vi: int, exists: bool) -> bool:
 # ----------------------------------------------------------------------------------------------- C10: damaged / partial cache
 BASE_TREE = {POOL[0]: 0, POOL[-1]: 1}
 BASE_CACHED = [{POOL[0]: 0, POOL[-1]: 1}, {POOL[0]: 1}, {}]     # fully current, stale+missing, empty report
-NONJSON = ["", " ", "{", "[]", "null", "0", "\"x\"", "{}", "{\"version\": 1}", "not json", "\x00", "{\"codebase\": {\"files\": []}}"]
+NONJSON = ["", " ", "{", "[]", "null", "0", "\"x\"", "{}", "{\"version\": 1}", "not json", "\x00", "{\"codebase\": {\"files\": []}}",
+           b"\xff\xfe\x00binary", b"{\"version\": \"\xe9\"}", "{\"uuid\": " + "9" * 5000 + "}", "[" * 40 + "]" * 40, "{\"version\": 1e999}"]
 
 
 def _doc(ci, pretty=True):
